@@ -615,6 +615,29 @@ Proof.
     subst e. unfold entry_of. simpl. rewrite rstr_fpat. destruct (str_eqb_spec p pattern) as [->|]; [congruence | reflexivity].
 Qed.
 
+Lemma Inv_rt_remove_obj R p0 fl : Inv R -> Inv (fst (rt_remove_obj R p0 fl)).
+Proof.
+  intros HI. unfold rt_remove_obj. destruct (rt_match R p0 fl) as [d|]; [|exact HI].
+  destruct (pattern_of_rid R d) as [pattern|]; [|exact HI].
+  destruct (rd_remove (tree R) pattern false true) as [t'|] eqn:Er; [|exact HI].
+  destruct (remove_lemma _ _ _ _ _ (inv_wf R HI) Er) as (Hw & Hp).
+  rewrite andb_false_r in Hp.
+  assert (Hp' : forall e, In e (paths t') <-> In e (paths (tree R)) /\ str_eqb (rstr (fst e)) pattern = false).
+  { intros e. rewrite Hp, keepP_exact. tauto. }
+  destruct (al_get (routes R) pattern) as [d0|] eqn:Eg; simpl.
+  - rewrite al_del_filter. apply (Inv_remove_keys R t' (fun p => str_eqb p pattern)); auto.
+  - destruct HI as [I1 I2 I3 I4]. constructor; simpl; auto.
+    intros e. rewrite Hp', I2. split; [tauto|]. intros (p & d1 & rt & A & B & C). split; [eauto 6|].
+    subst e. unfold entry_of. simpl. rewrite rstr_fpat. destruct (str_eqb_spec p pattern) as [->|]; [congruence | reflexivity].
+Qed.
+
+Lemma Inv_rt_route_method R p fl ms h ow : Inv R -> Inv (fst (rt_route_method R p fl ms h ow)).
+Proof.
+  intros HI. unfold rt_route_method. destruct (rt_match R p fl) as [d|]; [|exact HI].
+  destruct (nth_error (heap R) d) as [rt|] eqn:E; [|exact HI].
+  destruct (if ow then Some _ else mt_add _ _ _); [|exact HI]. now apply Inv_heap_set.
+Qed.
+
 (* the in-place update of a hook pair changes no route and no key *)
 Lemma upd_hooks_ok hp : forall n route,
   wf n -> wf (upd_hooks_at n route hp) /\ nkey (upd_hooks_at n route hp) = nkey n /\
@@ -693,6 +716,9 @@ Proof.
     now destruct (rt_add_hook R pattern nm flts h partial).
   - pose proof (Inv_rt_remove_hook R pattern HI) as G. now destruct (rt_remove_hook R pattern).
   - now apply Inv_rt_remove_method.
+  - pose proof (Inv_rt_remove_obj R pattern flts HI) as G. now destruct (rt_remove_obj R pattern flts).
+  - pose proof (Inv_rt_route_method R pattern flts ms h overwrite HI) as G.
+    now destruct (rt_route_method R pattern flts ms h overwrite).
 Qed.
 
 Lemma Inv_hist cs : forall R, Inv R -> Forall hist_cmd cs -> Inv (exec_cmds R cs).
